@@ -44,7 +44,7 @@ def _check(pid, tier, sc, t0):
         procs = []
         for i in range(nproc):
             procs.append(subprocess.Popen([exe, "-seed", str(vlib.SEED * 100 + i), "-rounds", str(max(1, rounds // nproc + 1))],
-                                          stdout=subprocess.PIPE, stderr=subprocess.STDOUT, text=True,
+                                          stdout=subprocess.PIPE, stderr=subprocess.STDOUT, text=True, errors="replace",
                                           env=dict(env, GORACE="halt_on_error=1")))
         for i, p in enumerate(procs):
             out, _ = p.communicate()
